@@ -52,6 +52,11 @@ func (m *Socks5Matcher) Match(cx *layer4.Connection) (bool, error) {
 		return false, err
 	}
 
+	// a client offers at least one auth method (RFC 1928, section 3)
+	if buf[0] == 0 {
+		return false, nil
+	}
+
 	// read auth methods
 	methods := make([]byte, buf[0])
 	_, err := io.ReadFull(cx, methods)
